@@ -21,7 +21,7 @@ CAP_S = {'quick': 150, 'thorough': 3000}
 # thorough tier only: 600 s x 8 coverage-guided libFuzzer campaigns over the same strategy and oracle (vlib/fuzz_driver.py)
 FUZZ = {'thorough': (600, 8)}
 RULE = ('three case families. valid: a supported hint from the shared grammar with an object violating it at a generated path - whatever the '
-        'violation path raises must be a public beartype exception. junk: a hint-construction program (recursive: typing factories subscripted by junk leaves - ints, strings '
+        'violation path raises must be a public beartype exception, and so must is_subhint (both orders) and TypeHint == between that hint and a second one (a widening of it or unrelated). junk: a hint-construction program (recursive: typing factories subscripted by junk leaves - ints, strings '
         'that do not parse or resolve, unhashables, slot wrappers, builtins, modules, nested tuples, wrong arity, special forms such as '
         'ClassVar/Final/Required/Unpack/ParamSpec/TypeVarTuple/Concatenate, deep legal nesting up to depth 400) evaluated to an object that '
         'is then passed as a hint to @beartype (parameter, return and the return of a binary dunder method; decoration and call), is_bearable, die_if_unbearable, TypeHint and '
